@@ -552,6 +552,10 @@ func (a *arrayObject) exportToArrayOrSlice(dst reflect.Value, typ reflect.Type, 
 			if p, ok := val.(*valueProperty); ok {
 				val = p.get(a.val)
 			}
+			if val == nil {
+				// a hole
+				val = nilSafe(a.val.self.getIdx(valueInt(i), nil))
+			}
 			err := r.toReflectValue(val, dst.Index(i), ctx)
 			if err != nil {
 				return fmt.Errorf("could not convert array element %v to %v at %d: %w", val, typ, i, err)
